@@ -120,6 +120,38 @@ def gen(rng, kind):
     return top, shape
 
 
+CATALOGUE_VALUES = [None, True, False, 0, 1, 1234, -1, 2 ** 70, 0.5, "", "A", "AAAAA", "é", "AQID", "public-key", [], ["AQID"], [1],
+                    {}, {"a": 1}, {"status": "x"}, "a b", "=", "AQID=", "-_-_"]
+
+
+def systematic(kind):
+    """all members valid except one (or two), which takes every value of a fixed catalogue"""
+    import itertools
+    raw = bytes(range(20))
+    base_resp = {"clientDataJSON": core.b64url(b'{"type":"webauthn.get"}')}
+    if kind == "reg":
+        base_resp["attestationObject"] = core.b64url(bytes(range(40)))
+        base_resp["transports"] = ["usb", "nfc"]
+    else:
+        base_resp.update(authenticatorData=core.b64url(bytes(range(37))), signature=core.b64url(bytes(range(70))),
+                         userHandle=core.b64url(b"user"))
+    base = {"id": core.b64url(raw), "rawId": core.b64url(raw), "response": base_resp, "type": "public-key",
+            "authenticatorAttachment": "platform", "clientExtensionResults": {}}
+    paths = [("id",), ("rawId",), ("type",), ("authenticatorAttachment",), ("response",)] + [("response", k) for k in base_resp]
+    import copy
+    out = [(copy.deepcopy(base), ["all-valid"])]
+    for path in paths:
+        for v in CATALOGUE_VALUES + ["<absent>"]:
+            d = copy.deepcopy(base)
+            tgt = d if len(path) == 1 else d["response"]
+            if v == "<absent>":
+                del tgt[path[-1]]
+            else:
+                tgt[path[-1]] = v
+            out.append((d, [".".join(path) + "=" + repr(v)[:20]]))
+    return out
+
+
 def work(tasks, idx):
     from .. import common
     res = Result()
@@ -127,8 +159,11 @@ def work(tasks, idx):
     tie = corr.Tie(res, drv, "eq")
     for kind, seed, n in tasks:
         rng = common.Rng(seed)
-        for _ in range(n):
-            if rng.random() < 0.08:
+        sysl = systematic(kind) if n < 0 else []
+        for it in range(len(sysl) if n < 0 else n):
+            if n < 0:
+                v, shape = sysl[it]
+            elif rng.random() < 0.08:
                 v, shape = arbitrary(rng), ["non-credential"]
             else:
                 v, shape = gen(rng, kind)
@@ -186,6 +221,7 @@ def work(tasks, idx):
 def run(ctx, res):
     n = 400 if ctx.quick() else 8000
     tasks = [(kind, ctx.seed * 7919 + i, n) for i in range(16) for kind in ("reg", "auth")]
+    tasks += [("reg", 0, -1), ("auth", 0, -1)]     # the systematic single-member streams
     work.driver_ok = ctx.driver_ok
     corr.merge(res, corr.parallel(work, tasks))
     res.rule = ("credential JSON values in which every expected member independently holds a valid value, an invalid string (wrong length, "
